@@ -126,4 +126,16 @@ def dot3 : List K → List K → K
 def ppos [LinearOrder K] (x : K) : K := max x 0
 def pneg [LinearOrder K] (x : K) : K := min x 0
 
+
+/-! ### the result of the eigen-solver in the traces where it is stubbed (uninterpreted symbols) -/
+/-- eigenvector matrix returned by the (stubbed) eigen-solver for the stored components `s` -/
+def solM3 (fn : Fns K) (s : List K) : M3 K :=
+  ⟨fn.call "m00" s, fn.call "m01" s, fn.call "m02" s, fn.call "m10" s, fn.call "m11" s, fn.call "m12" s,
+   fn.call "m20" s, fn.call "m21" s, fn.call "m22" s⟩
+/-- in 2D the solver returns an in-plane rotation and the out-of-plane axis -/
+def solM2 (fn : Fns K) (s : List K) : M3 K := M2 (fn.call "m00" s) (fn.call "m01" s) (fn.call "m10" s) (fn.call "m11" s)
+/-- eigenvalues returned by the (stubbed) eigen-solver -/
+def solvp (fn : Fns K) (i : String) (s : List K) : K := fn.call i s
+
+
 end TfelVerif.C05
